@@ -17,12 +17,14 @@ FILES = tuple(os.path.join(REPO, "j1939", f) for f in ("j1939_21.py", "j1939_22.
 
 
 class Preemptor:
-    def __init__(self, sim, target=None, hold_us=0, second=None):
+    def __init__(self, sim, target=None, hold_us=0, second=None, during=None):
         self.sim = sim
+        self.during = during          # [offset_us, send record]: the application thread submits a message while the job thread is held
         self.targets = [t for t in (target, second) if t is not None]   # (node, file, line, occurrence)
         self.hold_us = hold_us
         self.count = collections.Counter()
         self.points = []
+        self.point_time = {}
         self.cur = None
         self.active = False
         orig_run_job = sim.run_job
@@ -53,6 +55,7 @@ class Preemptor:
             self.count[key] += 1
             p = key + (self.count[key],)
             self.points.append(p)
+            self.point_time[p] = self.sim.now_us
             if p in self.targets:
                 self._hold(p)
         return self._local
@@ -67,6 +70,15 @@ class Preemptor:
         end = sim.now_us + self.hold_us
         saved_end, saved_depth = sim.t_end, sim.depth
         sim.t_end, sim.depth = end, 0
+        if self.during is not None and p == self.targets[0]:
+            off, q = self.during
+            qn = sim.node(q["node"])
+            data = q["data"] if "data" in q else scen.payload(q["size"], q.get("salt", 0))
+
+            def submit():
+                sim.api(qn, "send_pgn", lambda: qn.ecu.send_pgn(q["dp"], q["pf"], q["ps"], q["prio"], q["sa"], list(data)),
+                        dp=q["dp"], pf=q["pf"], ps=q["ps"], prio=q["prio"], sa=q["sa"], data=list(data), tl=0, ff=3)
+            sim.after(off, submit)
         sim.flush_pokes()
         while sim.step():
             pass
@@ -78,15 +90,16 @@ class Preemptor:
         sys.settrace(self._global)
 
 
-def run(sc, target=None, hold_us=0, second=None):
-    """like scen.run, with the job thread pre-empted at `target` (and `second`)"""
+def run(sc, target=None, hold_us=0, second=None, during=None):
+    """like scen.run, with the job thread pre-empted at `target` (and `second`); `during` = [offset_us, send]: a message
+    the application thread of a stack submits while the job thread is held at `target`"""
     hook = {}
 
     def install(sim):
-        hook["p"] = Preemptor(sim, target, hold_us, second)
+        hook["p"] = Preemptor(sim, target, hold_us, second, during)
     sc = dict(sc, _install=install)
     tr, sim = scen.run(sc)
     tr["meta"]["scenario"] = {k: v for k, v in sc.items() if k != "_install"}
     tr["meta"]["scenario"]["preempt"] = {"target": list(target) if target else None, "hold_us": hold_us,
-                                         "second": list(second) if second else None}
+                                         "second": list(second) if second else None, "during": during}
     return tr, sim, hook["p"]
